@@ -303,6 +303,15 @@ func PoolPut(p *sync.Pool, v interface{}) {
 		pstats.Poisoned++
 		pstats.WordsPoisoned += len(w)
 	}
+	if len(sp.free) >= 48 {
+		// bounded like a real pool (which the GC trims): verify and drop the oldest
+		old := sp.free[0]
+		_, ow := PoolView(old.v)
+		if len(ow) != old.n || sumWords(ow) != old.sum {
+			poolViolate(fmt.Sprintf("pooled buffer %s (put by task %d) was written after it was put back (detected when trimmed)", bufName(old.id), old.putBy))
+		}
+		sp.free = append(sp.free[:0:0], sp.free[1:]...)
+	}
 	sp.free = append(sp.free, freeBuf{v: v, id: id, sum: sumWords(w), n: len(w), putBy: tid})
 	if len(sp.free) > pstats.MaxFree {
 		pstats.MaxFree = len(sp.free)
